@@ -37,6 +37,9 @@ enum Act {
     /// epoch `by`, over the same data the probes use later (a verdict cached now must not outlive
     /// the set's retention)
     Validate { by: usize },
+    /// rotate (latest set signing, no bypass) to the set that was installed at epoch `to`: a set is
+    /// installed once, so this is refused whether or not that set is still inside the window
+    RotateBack { to: usize },
     Advance(u32),
 }
 
@@ -138,6 +141,11 @@ impl Scenario for C08 {
         for by in 1..=m.epoch {
             v.push(Act::Validate { by });
         }
+        if ctx.n_init <= 3 {
+            for to in 1..=m.epoch {
+                v.push(Act::RotateBack { to });
+            }
+        }
         if m.advances < self.max_adv {
             v.push(Act::Advance(20));
             // ~405 days: longer than the maximum entry TTL, so every temporary entry is gone by then, while
@@ -165,6 +173,21 @@ impl Scenario for C08 {
                 if call.ok {
                     m.epoch += 1;
                 } else {
+                    out.expect(h0 == w.state_hash(), "rotate.rejected-but-changed", || format!("{:?}", a));
+                }
+            }
+            Act::RotateBack { to } => {
+                out.kind = "rotate-back";
+                let env = &w.env;
+                let h0 = w.state_hash();
+                let next = pool(to - 1).raw(&ctx.keys);
+                let proof = honest_proof(&ctx.keys, &pool(m.epoch - 1), &DOMAIN, &next.rotation_data_hash());
+                let call = w.call(&ctx.gw, "rotate_signers", &[to_val(env, &next.scval()), to_val(env, &proof), w.v(false)], Auth::Nobody);
+                out.accepted = call.ok;
+                out.expect(!call.ok, "rotate.reinstalled-an-earlier-set", || {
+                    format!("rotation back to the set installed at epoch {} (current epoch {}, retention {}) was accepted: its old proofs count again", to, m.epoch, ctx.retention)
+                });
+                if !call.ok {
                     out.expect(h0 == w.state_hash(), "rotate.rejected-but-changed", || format!("{:?}", a));
                 }
             }
@@ -282,7 +305,7 @@ fn main() {
         let mut o = Opts::new(tier, if thorough { 13 } else { 9 });
         o.min_depth = 4;
         o.xcheck = tier == "thorough";
-        o.rule = "retention in {0,1,2,3,7,2^32,2^32+1,u64::MAX} x 1-3 initial sets, and retention in {16,17,2^32,u64::MAX} x 18 initial sets (two rotations on top); all rotation histories where each rotation is authorised by ANY installed set, with and without operator bypass, kept (not rolled back) validate_proof calls by any installed set, plus bounded ledger advancement; explored to fixpoint up to epoch 7 (quick) / 10 (thorough). In every reached state, for EVERY installed set: validate_proof, approve_messages of a fresh id, approve_messages of a batch that is already approved, non-bypass rotation and bypass rotation are executed on a snapshot and compared with `epoch - e <= retention` (non-bypass rotation: e == epoch)".into();
+        o.rule = "retention in {0,1,2,3,7,2^32,2^32+1,u64::MAX} x 1-3 initial sets, and retention in {16,17,2^32,u64::MAX} x 18 initial sets (two rotations on top); all rotation histories where each rotation is authorised by ANY installed set, with and without operator bypass, kept (not rolled back) validate_proof calls by any installed set, rotations back to every set installed earlier (refused), plus bounded ledger advancement; explored to fixpoint up to epoch 7 (quick) / 10 (thorough). In every reached state, for EVERY installed set: validate_proof, approve_messages of a fresh id, approve_messages of a batch that is already approved, non-bypass rotation and bypass rotation are executed on a snapshot and compared with `epoch - e <= retention` (non-bypass rotation: e == epoch)".into();
         (s, o)
     });
 }
